@@ -13,18 +13,27 @@ Proof      : coq/Props/C20.v -- C20_refine_s3 / C20_refine_local / C20_backends_
              of every open of every history names an object that exists, within its size);
              C20_range_equiv / C20_range_negative_seek / C20_seek_invalid_whence (every content, every seek/read
              program), C20_retry_* / C20_s3_retry_* (every outcome script), C20_s3_retry_definitive (every error on an
-             INDEPENDENT list of definitive S3 answers surfaces with the attempt that met it).
+             INDEPENDENT list of definitive S3 answers -- Model/Retry.v definitive_codes, from the S3 error-code reference,
+             NOT a subset of the library's table as it was found: access / credentials / bucket and the request itself
+             refused (InvalidArgument, InvalidRequest, InvalidURI, KeyTooLongError, InvalidRange, MethodNotAllowed) --
+             surfaces with the attempt that met it; proved against the REGENERATED table, so it holds only of a library
+             whose table has them all: finding retry-contract:definitive-client-error-retried, repaired by a fix: commit).
              Faults inside histories (Model/BackendFault.v = the retry loop composed with every backend method as the
              source wraps it, a positional fault plan per operation, faults BEFORE or AFTER the request took effect):
              C20_s3_faulty_masks_partial -- transient faults, at most max_retries per operation, at any request (a PUT
              that landed and was answered with an error, any page of a listing, get_size's HEAD, any ranged GET of a
              reader) change no result of any history, PROVIDED the request with index max_retries (the operation's last
-             attempt) is answered and CAS writes are fault-free.  The statement without the first proviso
-             (C20_s3_faulty_masks_full) is FALSE of the code as it is: C20_s3_faulty_masks_refuted -- a not-found
-             answer is retried like a transient error (C20_not_found_retried, C20_not_found_immediate_refuted) and
-             uses up the budget, so one transient error on request max_retries+1 of a read of a missing key
-             surfaces instead of FileNotFoundError (finding retry-contract:not-found-uses-up-budget, reported by the
-             oracle below on every run).  C20_cas_put_fault_surfaces: write_file_cas is not under the retry.
+             attempt) is answered and CAS writes are fault-free.  The property's sentence itself, with NO proviso
+             (C20_s3_faulty_masks_full: transient faults, at most max_retries per operation, any operation incl. the CAS
+             writer, any request) is FALSE of the code as it is, for two independent reasons: C20_s3_faulty_masks_refuted
+             -- a not-found answer is retried like a transient error (C20_not_found_retried,
+             C20_not_found_immediate_refuted) and uses up the budget, so one transient error on request max_retries+1 of a
+             read of a missing key surfaces instead of FileNotFoundError (finding
+             retry-contract:not-found-uses-up-budget, reported by the oracle below on every run);
+             C20_s3_faulty_masks_refuted_by_cas -- write_file_cas is not under the retry (C20_cas_put_fault_surfaces), one
+             transient error on its conditional PUT surfaces.  Each proviso alone does not suffice:
+             C20_s3_faulty_masks_modulo_cas_refuted (the statement formerly called _full),
+             C20_s3_faulty_masks_modulo_last_attempt_refuted.
              Regenerated from the source on every run:  Gen/GenS3.v (key mapping, listing Prefix, prefix
              stripping, constructor prefix, create_storage_backend's join, not-found / CAS / permanent code
              literals, retry defaults) and Gen/GenRange.v (S3RangeFile.seek / readinto / readall integer kernels,
@@ -65,6 +74,16 @@ Oracles    : implementation only, judged by the property text (no model involved
                range-not-in-object      every ranged GET an Open issues must name an existing object, within its size
                range-file               S3RangeFile and open_seekable()'s BufferedReader vs a real local file
                                         (FileIO / buffered) on the same content; every Range header in range
+               process configuration    every fault campaign below runs under PROCESS-WIDE CONFIGURATIONS (harness/lib/procconf.py):
+                                        every class of transient failure (S3 error response, OSError below botocore,
+                                        BotoCoreError without a response) x every operation x every attempt index x before /
+                                        after  x  {library as imported, process at DEBUG}; random histories, listings and retry
+                                        scripts rotate through DEBUG via set_level / module loggers / root logger, quieter
+                                        levels and logging.disable; the library is never run with logging switched off
+                                        (records are formatted and written to a sink)
+               definitive codes         a store answering every request with a code of DEFINITIVE_CLIENT_CODES (independent of
+                                        the library's table): 9 operations x default / DEBUG must raise that ClientError after
+                                        exactly ONE request and no sleep
                retry-contract           attempts / result / sleeps of with_s3_retry judged directly; transient faults
                                         (<= max_retries per operation, before / after the effect) at ANY request index
                                         of an operation -- no index is exempt, also not the one that is the retry
@@ -86,7 +105,7 @@ import types
 from fractions import Fraction
 from typing import Any, Dict, List, Optional, Tuple
 
-from harness.lib import coqbuild
+from harness.lib import coqbuild, procconf
 from harness.lib.coqio import C, Some
 
 LEVEL = "proof"
@@ -97,7 +116,9 @@ THEOREMS = [
     "C20_retry_masks", "C20_retry_permanent", "C20_retry_nonretryable", "C20_retry_exhaust",
     "C20_retry_returns_own_value", "C20_retry_raises_own_error",
     "C20_s3_retry_masks", "C20_s3_retry_permanent", "C20_s3_retry_exhaust", "C20_s3_retry_definitive",
-    "C20_s3_faulty_masks_partial", "C20_s3_faulty_masks_refuted", "C20_not_found_retried", "C20_not_found_immediate_refuted",
+    "C20_s3_faulty_masks_partial", "C20_s3_faulty_masks_refuted", "C20_s3_faulty_masks_refuted_by_cas",
+    "C20_s3_faulty_masks_modulo_cas_refuted", "C20_s3_faulty_masks_modulo_last_attempt_refuted",
+    "C20_not_found_retried", "C20_not_found_immediate_refuted",
     "C20_cas_put_fault_surfaces",
     "C20_paged_listing_masks", "C20_paged_listing_permanent",
 ]
@@ -114,23 +135,35 @@ MANIFEST_ENTRY = {
                   "C20_range_equiv for every content and seek/read program (bytes, positions, negative target = error, every "
                   "Range within 0<=first<=last<size), C20_retry_* for every outcome script (masking within budget, permanent "
                   "errors surface at once, exhaustion after exactly max+1 attempts, nothing swallowed or invented), "
-                  "C20_s3_retry_definitive (an independent list of definitive S3 errors surfaces with the attempt that met it); "
+                  "C20_s3_retry_definitive (a list of definitive S3 errors taken from the S3 error reference, not from the library's table -- "
+                  "access / credentials / bucket and request-refused codes InvalidArgument, InvalidRequest, InvalidURI, KeyTooLongError, "
+                  "InvalidRange, MethodNotAllowed -- surfaces with the attempt that met it; proved against the regenerated table: false of "
+                  "the library as found, which retried the request-refused codes max_retries times -- repaired by a fix: commit); "
                   "C20_s3_faulty_masks_partial: the retry loop composed with every backend method (Model/BackendFault.v) -- transient "
                   "faults before or after the effect, at most max_retries per operation, at any request of any operation of any "
                   "history change no result, PROVIDED the request with index max_retries of each operation is answered and CAS "
-                  "writes are fault-free; the statement without the first proviso is REFUTED (C20_s3_faulty_masks_refuted: a not-found "
+                  "writes are fault-free; the property's sentence without any proviso (C20_s3_faulty_masks_full: no CAS exemption, no "
+                  "exempt request) is REFUTED twice (C20_s3_faulty_masks_refuted: a not-found "
                   "answer is retried and uses up the budget -- C20_not_found_retried -- so one transient error on request "
-                  "max_retries+1 of a read of a missing key surfaces; finding retry-contract:not-found-uses-up-budget); "
-                  "C20_cas_put_fault_surfaces (write_file_cas is not under the retry); key "
+                  "max_retries+1 of a read of a missing key surfaces; finding retry-contract:not-found-uses-up-budget; "
+                  "C20_s3_faulty_masks_refuted_by_cas: one transient error on write_file_cas's conditional PUT surfaces -- "
+                  "C20_cas_put_fault_surfaces, write_file_cas is not under the retry), and so is the statement with either proviso alone "
+                  "(C20_s3_faulty_masks_modulo_cas_refuted, C20_s3_faulty_masks_modulo_last_attempt_refuted); key "
                   "mapping, listing Prefix, prefix stripping, code literals, retry defaults, S3RangeFile's seek / readinto / "
                   "readall kernels and open_seekable's wiring (key and size source of the reader) are regenerated from the "
                   "source on every run; models tied to LocalStorageBackend / S3StorageBackend / S3RangeFile / with_s3_retry by "
                   "differential execution over in-memory S3 stores through one to four backend instances over one or two stores "
-                  "with the same names, with and without injected faults; implementation-only oracles search for a failing input",
+                  "with the same names, with and without injected faults, the fault campaigns under process-wide configurations (every "
+                  "transient fault class x library default / DEBUG, other logging configurations in rotation; logging never disabled by "
+                  "the harness); implementation-only oracles search for a failing input",
     "level_note": "trusted: Coq kernel; translator/gen_s3.py, translator/gen_range.py (+ golden AST digests of the hand-modelled "
                   "functions); a reader is used within one operation (the object does not change while it is read); the CAS "
                   "writer is modelled only as used correctly in a sequential history (tag just read) and its conditional PUT is "
-                  "outside the masking theorem (not retried by design); the S3 "
+                  "outside the masking theorem: it is not retried BY DESIGN (a re-sent conditional PUT whose first copy landed is refused "
+                  "and would be reported as a conflict; the local backend has no CAS writer to compare with), so its surfacing transient "
+                  "error is stated (C20_s3_faulty_masks_refuted_by_cas) and not reported as a violation; the process configuration "
+                  "(log levels) is a dimension of the oracles only -- the Coq model of the retry loop has no logging, the loop's text is "
+                  "pinned by a golden AST digest; the S3 "
                   "object-store model (strong consistency, GET/HEAD/PUT/DELETE/list-by-string-prefix, NoSuchKey/404) as "
                   "implemented by harness/lib/fakes3.py; local theorem assumes no WRITTEN key is a directory of another written key and no "
                   "'.'/'..'/empty segments (path normalisation is C17); LocalStorageBackend is hand-modelled (no translator; tied by the "
@@ -190,12 +223,27 @@ class VirtualSleep:
 
 
 def quiet_library() -> VirtualSleep:
-    logging.getLogger("datashard").setLevel(logging.CRITICAL + 1)
-    logging.disable(logging.CRITICAL)
+    """The library as a fresh process configures itself (its logger at its default level, nothing disabled): every log
+    record is formatted as in production and written to a sink.  Never logging.disable / a raised level: what the library
+    does while it logs is part of what is checked."""
+    procconf.quiet()
+    procconf.baseline()
     import datashard.s3_consistency as sc
     vs = VirtualSleep()
     sc.time = vs  # type: ignore[assignment]
     return vs
+
+
+# ---- process-wide configuration as a dimension of every fault campaign (harness/lib/procconf.py events): the library as
+# imported, and the configurations an application can put the process in (DEBUG through the library's own set_level, through
+# the module loggers, through the root logger; quieter levels; logging.disable)
+CONF_BOTH: List[Tuple[str, List[List[Any]]]] = [("default", []), ("debug", [["set_level", 10]])]
+CONF_RING: List[str] = ["default", "debug", "mod-debug", "default", "debug", "app-root-debug", "warning", "debug", "app-disable-info", "critical"]
+
+
+def conf_of(index: int) -> List[List[Any]]:
+    """Configuration of the index-th case of a campaign: default and DEBUG most often, the other named ones in rotation."""
+    return [list(e) for e in procconf.NAMED[CONF_RING[index % len(CONF_RING)]]]
 
 
 def err_kind(e: BaseException) -> Tuple[str, ...]:
@@ -1357,6 +1405,23 @@ def oracle_and_corr_retry(ctx, vs: VirtualSleep) -> None:
     cases = retry_cases(ctx)
     exprs, impl = [], []
     seen = set()
+    # the same scripts with the process at DEBUG (and, sampled, under the other named configurations): the loop's decisions
+    # must not depend on what it logs (judged by the contract only; the model has no configuration to compare)
+    for cname in [n for n in sorted(procconf.NAMED) if n != "default"]:
+        with procconf.applied(procconf.NAMED[cname]):
+            for ci, kinds in enumerate(cases):
+                if cname != "debug" and ci % 40:
+                    continue
+                script = [("G", 100 + i) if c == "G" else make_exc(c, ci + i) for i, c in enumerate(kinds)]
+                res, attempts, sleeps = run_retry(script, vs)
+                ctx.count(1, ("retry", kinds, cname))
+                why = retry_contract(kinds, script, res, attempts, sleeps)
+                if why:
+                    key = "retry-contract:" + ("swallowed" if res[0] == "ret" and "G" not in kinds[:attempts] else "attempts" if "attempts" in why else "result")
+                    if key not in seen:
+                        seen.add(key)
+                        ctx.violation(key, f"with_s3_retry on outcome script {kinds} under process configuration {procconf.NAMED[cname]}: {why}",
+                                      {"kind": "retry", "script": kinds, "index": ci, "why": why, "config": [list(e) for e in procconf.NAMED[cname]]})
     for ci, kinds in enumerate(cases):
         script = [("G", 100 + i) if c == "G" else make_exc(c, ci + i) for i, c in enumerate(kinds)]
         res, attempts, sleeps = run_retry(script, vs)
@@ -1401,7 +1466,8 @@ def oracle_and_corr_retry(ctx, vs: VirtualSleep) -> None:
     from harness.lib.fakes3 import PERMANENT_CODES, TRANSIENT_CODES
     codes = sorted(set(PERMANENT_CODES + TRANSIENT_CODES + ["404", "NoSuchKey", "", "PreconditionFailed", "412", "InvalidRange", "accessdenied",
                                                             "AccountProblem", "AuthorizationHeaderMalformed", "InvalidBucketName", "InvalidObjectState",
-                                                            "InvalidToken", "PermanentRedirect", "TokenRefreshRequired", "UnauthorizedAccess", "400"]))
+                                                            "InvalidToken", "PermanentRedirect", "TokenRefreshRequired", "UnauthorizedAccess", "400", "429",
+                                                            "ExpiredToken", "BadDigest", "EntityTooLarge", "405"] + DEFINITIVE_CLIENT_CODES))
     g = coqbuild.coq_eval(REQ, [f"is_permanent (ClientError (lit {cstr(c)}))" for c in codes] + ["is_permanent OSErr", "is_permanent BotoCoreErr"])
     bad = []
     for c, m in zip(codes, g):
@@ -1429,10 +1495,15 @@ def fault_exc_obs(e: BaseException) -> Tuple[Any, ...]:
     return ("raise", exc_coq(e))
 
 
-def run_s3_with_plans(ops, plans, pfx, F) -> Tuple[List[Any], Dict[str, bytes]]:
+def run_s3_with_plans(ops, plans, pfx, F, conf: Optional[List[List[Any]]] = None) -> Tuple[List[Any], Dict[str, bytes]]:
     """Each operation runs with its own positional fault plan (entry i = fault on the i-th request the
     operation issues, counting retried requests): faults can land on any request of a multi-request operation.
-    A plan entry is None | [when, code-or-exception-name]."""
+    A plan entry is None | [when, code-or-exception-name].  conf: the process-wide configuration the history runs under."""
+    with procconf.applied(conf or []):
+        return _run_s3_with_plans(ops, plans, pfx, F)
+
+
+def _run_s3_with_plans(ops, plans, pfx, F) -> Tuple[List[Any], Dict[str, bytes]]:
     from harness.lib.fakes3 import FakeS3, make_s3_backend
     bname = fresh_bucket()
     s3 = FakeS3(buckets=(bname,), page_size=2)
@@ -1448,9 +1519,11 @@ def run_s3_with_plans(ops, plans, pfx, F) -> Tuple[List[Any], Dict[str, bytes]]:
     return out, s3.dump()
 
 
-def faults_case_fails(ops, plans, pfx, F) -> Optional[Dict[str, Any]]:
-    clean, s3clean = run_s3(ops, pfx, F)
-    faulty, dump = run_s3_with_plans(ops, plans, pfx, F)
+def faults_case_fails(ops, plans, pfx, F, conf: Optional[List[List[Any]]] = None) -> Optional[Dict[str, Any]]:
+    """The fault-free run and the run under the plans, BOTH under the process configuration `conf`, against the contract."""
+    with procconf.applied(conf or []):
+        clean, s3clean = run_s3(ops, pfx, F)
+    faulty, dump = run_s3_with_plans(ops, plans, pfx, F, conf)
     sp = spec_oracle(ops)
     if faulty == clean == sp and dump == s3clean.dump():
         return None
@@ -1475,11 +1548,11 @@ def fault_failure_key(ops, plans, bad: Dict[str, Any]) -> str:
     return "retry-contract:transient-fault-changes-result"
 
 
-def shrink_fault_case(ops, plans, pfx, F, key: str) -> Tuple[List[Any], List[Any]]:
-    """Drop operations (with their plans), then drop faults, keeping the same finding."""
+def shrink_fault_case(ops, plans, pfx, F, key: str, conf: Optional[List[List[Any]]] = None) -> Tuple[List[Any], List[Any]]:
+    """Drop operations (with their plans), then drop faults, keeping the same finding (same process configuration)."""
     def still(c) -> bool:
         o, pl = [x[0] for x in c], [x[1] for x in c]
-        b = faults_case_fails(o, pl, pfx, F)
+        b = faults_case_fails(o, pl, pfx, F, conf)
         return b is not None and fault_failure_key(o, pl, b) == key
 
     cur = list(zip(ops, plans))
@@ -1508,13 +1581,19 @@ def shrink_fault_case(ops, plans, pfx, F, key: str) -> Tuple[List[Any], List[Any
 FAULT_WEIGHTS = [7, 3, 3, 5, 2, 2, 1, 4, 1, 0, 1]       # no CAS writes: write_file_cas is deliberately not under the retry
 
 
+#: one representative of every CLASS of transient failure the retry loop handles: an S3 error response (ClientError), a
+#: transport failure below botocore (OSError family), botocore's own connection-level errors (BotoCoreError: no response)
+FAULT_CLASSES = ["SlowDown", "ConnectionResetError", "EndpointConnectionError", "InternalError", "ConnectionClosedError", "TimeoutError"]
+EXC_FAULTS = ["ConnectionResetError", "EndpointConnectionError", "ConnectionClosedError", "TimeoutError"]
+
+
 def gen_transient_plan(rng) -> List[Any]:
     """At most MAX_RETRIES transient faults (S3 codes or transport exceptions), before or after the effect, at ANY of
     the first 10 requests of the operation -- also the request that is the last attempt the retry loop makes."""
     from harness.lib.fakes3 import TRANSIENT_CODES
     plan: List[Any] = [None] * 10
     for pos in rng.sample(range(10), rng.choice([0, 0, 1, 2, 3, 5])):
-        plan[pos] = [rng.choice(["before", "after"]), rng.choice(TRANSIENT_CODES + ["ConnectionResetError", "EndpointConnectionError"])]
+        plan[pos] = [rng.choice(["before", "after"]), rng.choice(TRANSIENT_CODES + EXC_FAULTS)]
     return plan
 
 
@@ -1527,29 +1606,44 @@ def oracle_s3_faults(ctx) -> None:
     nbad = 0
     seen: set = set()
     # first the smallest histories: one operation on a key that holds nothing / something, one fault at each request index
-    fixed: List[Tuple[str, Any, List[Any], List[Any]]] = []
-    for name in ("Read", "Size", "Mtime", "Stream", "ReadTag", "Open", "Exists", "Delete", "ListDir"):
+    # ... for EVERY class of transient failure (FAULT_CLASSES) x the library as imported / the process at DEBUG
+    fixed: List[Tuple[str, Any, List[Any], List[Any], List[List[Any]]]] = []
+    for name in ("Read", "Size", "Mtime", "Stream", "ReadTag", "Open", "Exists", "Delete", "ListDir", "Write"):
         for present in (False, True):
-            for pos in range(MAX_RETRIES + 1):
-                for when in ("before", "after"):
-                    op: Tuple[Any, ...] = (name, "data/x") if name != "Open" else (name, "data/x", (("ReadInto", 2), ("Tell",)), "raw")
-                    if name == "ListDir":
-                        op = (name, "data")
-                    ops = ([("Write", "data/x", b"xyz1")] if present else []) + [op]
-                    plan: List[Any] = [None] * 10
-                    plan[pos] = [when, "SlowDown" if (pos + len(name)) % 2 else "ConnectionResetError"]
-                    fixed.append(("p", [], ops, ([[None] * 10] if present else []) + [plan]))
+            for fclass in FAULT_CLASSES:
+                for _cname, conf in CONF_BOTH:
+                    for pos in range(MAX_RETRIES + 1):
+                        for when in ("before", "after"):
+                            if (pos + len(name)) % 2 and when == "after" and fclass not in FAULT_CLASSES[:3]:
+                                continue                                   # thin the secondary representatives
+                            op: Tuple[Any, ...] = (name, "data/x") if name != "Open" else (name, "data/x", (("ReadInto", 2), ("Tell",)), "raw")
+                            if name == "ListDir":
+                                op = (name, "data")
+                            if name == "Write":
+                                op = (name, "data/x", b"bc")
+                            ops = ([("Write", "data/x", b"xyz1")] if present else []) + [op]
+                            plan: List[Any] = [None] * 10
+                            plan[pos] = [when, fclass]
+                            fixed.append(("p", [], ops, ([[None] * 10] if present else []) + [plan], conf))
+    # fault-free histories under every named configuration (what the library does while it logs must not change a result)
+    for cname in sorted(procconf.NAMED):
+        fixed.append(("p", [], [("Write", "data/x", b"xyz1"), ("Read", "data/x"), ("Read", "data/y"), ("Size", "data/y"), ("Exists", "data/y"),
+                                ("ListDir", "data"), ("Open", "data/x", (("ReadInto", 2), ("Tell",)), "raw"), ("Mtime", "data/y"), ("Delete", "data/x")],
+                      [[] for _ in range(9)], [list(e) for e in procconf.NAMED[cname]]))
     rnd = []
-    for _ in range(n):
+    for ci in range(n):
         pfx, F = rng.choice(PREFIXES)
         ops = []
         hot = rng.sample(KEYS, 2)
         for _ in range(rng.randint(1, 12)):
             ops.append(gen_op(rng, hot if rng.random() < 0.6 else KEYS, DIRS, weights=FAULT_WEIGHTS, probes=PROBE_ONLY))
-        rnd.append((pfx, F, ops, [gen_transient_plan(rng) for _ in ops]))
-    for pfx, F, ops, plans in fixed + rnd:
-        ctx.count(1, ("faults", pfx, repr(ops), repr(plans)))
-        bad = faults_case_fails(ops, plans, pfx, F)
+        conf = conf_of(ci) if ci % 11 != 10 else procconf.random_events(rng)
+        rnd.append((pfx, F, ops, [gen_transient_plan(rng) for _ in ops], conf))
+    confs_seen: Dict[str, int] = {}
+    for pfx, F, ops, plans, conf in fixed + rnd:
+        ctx.count(1, ("faults", pfx, repr(ops), repr(plans), repr(conf)))
+        confs_seen[repr(conf)] = confs_seen.get(repr(conf), 0) + 1
+        bad = faults_case_fails(ops, plans, pfx, F, conf)
         if not bad:
             continue
         nbad += 1
@@ -1557,34 +1651,82 @@ def oracle_s3_faults(ctx) -> None:
         if key in seen:
             continue
         seen.add(key)
-        sops, splans = shrink_fault_case(ops, plans, pfx, F, key)
-        bad = faults_case_fails(sops, splans, pfx, F) or bad
+        sops, splans = shrink_fault_case(ops, plans, pfx, F, key, conf)
+        bad = faults_case_fails(sops, splans, pfx, F, conf) or bad
         what = ("a not-found answer is retried like a transient error and uses up the retry budget: one transient S3 error on request "
                 f"{MAX_RETRIES + 1} of an operation on a key that holds nothing surfaces instead of FileNotFoundError (the local backend answers not-found)"
                 if key == NOT_FOUND_KEY else "transient S3 faults within the retry budget changed a result")
-        ctx.violation(key, f"{what}: prefix={pfx!r} ops={ops_json(sops)} plans={splans}: {bad}",
+        ctx.violation(key, f"{what}: process configuration={conf} prefix={pfx!r} ops={ops_json(sops)} plans={splans}: {bad}",
                       {"kind": "faults", "prefix": pfx, "foreign": [[k, v.decode('latin-1')] for k, v in F], "ops": ops_json(sops), "plans": splans,
-                       "detail": obs_json(bad)})
+                       "config": conf, "detail": obs_json(bad)})
     ctx.stats["s3_fault_sequences_violating"] = nbad
+    ctx.stats["s3_fault_fixed_cases"] = len(fixed)
+    ctx.stats["s3_fault_cases_by_process_configuration"] = confs_seen
     # a permanent fault surfaces at once: exactly one request
     from harness.lib.fakes3 import FakeS3, PERMANENT_CODES, make_s3_backend
     from botocore.exceptions import ClientError
-    for code in PERMANENT_CODES:
-        for op in [("Read", "data/x"), ("Write", "data/x", b"v"), ("Exists", "data/x"), ("ListDir", "data"), ("Delete", "data/x"), ("Size", "data/x")]:
-            s3 = FakeS3()
-            be = make_s3_backend(s3, prefix="p")
-            s3.seed("p/data/x", b"1")
-            s3.fail(code, when="before", times=50)
-            r = apply_op(be, op)
-            ctx.count(1)
-            if r != ("err", "ClientErr") or len(s3.log) != 1:
-                ctx.violation(f"retry-contract:permanent-not-immediate:{op[0]}", f"{op[0]} under permanent S3 error {code}: result {r}, {len(s3.log)} request(s) (expected the ClientError after exactly 1)",
-                              {"kind": "permanent", "code": code, "op": list(op[:2])})
+    perm_seen: set = set()
+    for code in PERMANENT_CODES + [c for c in DEFINITIVE_CLIENT_CODES if c not in PERMANENT_CODES]:
+        for op in PERMANENT_OPS:
+            for _cname, conf in CONF_BOTH:
+                ctx.count(1, ("permanent", code, op[0], _cname))
+                bad = permanent_case_fails(code, op, conf)
+                if not bad:
+                    continue
+                listed = code in PERMANENT_CODES
+                key = f"retry-contract:permanent-not-immediate:{op[0]}" if listed else DEFINITIVE_KEY
+                if key in perm_seen:
+                    continue
+                perm_seen.add(key)
+                what = (f"{op[0]} under permanent S3 error {code}" if listed else
+                        f"{op[0]} answered with the definitive client error {code} (the request itself is refused: re-sending it cannot succeed) is retried like a transient error")
+                ctx.violation(key, f"{what}: process configuration {conf}: result {bad['result']}, {bad['requests']} request(s), {bad['sleeps']} sleep(s) "
+                                   f"(expected the ClientError {code} after exactly 1 request, no sleep)",
+                              {"kind": "permanent", "code": code, "op": ops_json([op])[0], "config": conf})
     ctx.stats["s3_fault_sequences"] = n
 
 
+#: S3 answers that no re-sending of the same request can change, judged from the AWS S3 error-code reference and NOT from the
+#: library's table: the REQUEST is refused as such (malformed / unsupported / out of the allowed shape).  "Permanent errors
+#: surface immediately without being retried" applies to them as it does to authorisation failures.  Not-found answers are
+#: the separate known finding F-C20b; throttling / timeout / skew answers (RequestTimeout, SlowDown, 429, RequestTimeTooSkewed,
+#: ExpiredToken, BadDigest) are deliberately absent: a retry can succeed.
+DEFINITIVE_CLIENT_CODES = ["InvalidArgument", "InvalidRequest", "InvalidURI", "KeyTooLongError", "InvalidRange", "MethodNotAllowed"]
+DEFINITIVE_KEY = "retry-contract:definitive-client-error-retried"
+PERMANENT_OPS: List[Tuple[Any, ...]] = [("Read", "data/x"), ("Write", "data/x", b"v"), ("Exists", "data/x"), ("ListDir", "data"), ("Delete", "data/x"),
+                                        ("Size", "data/x"), ("Stream", "data/x"), ("ReadTag", "data/x"), ("Mtime", "data/x")]
+
+
+def permanent_case_fails(code: str, op: Tuple[Any, ...], conf: Optional[List[List[Any]]] = None) -> Optional[Dict[str, Any]]:
+    """A store that answers every request with `code`: the operation must raise that ClientError after exactly ONE
+    request and without sleeping (implementation only)."""
+    import datashard.s3_consistency as sc
+    from botocore.exceptions import ClientError
+    from harness.lib.fakes3 import FakeS3, make_s3_backend
+    s3 = FakeS3()
+    be = make_s3_backend(s3, prefix="p")
+    s3.seed("p/data/x", b"1")
+    s3.fail(code, when="before", times=50)
+    sleeps = getattr(sc.time, "sleeps", None)
+    n0 = len(sleeps) if sleeps is not None else 0
+    seen: List[BaseException] = []
+
+    def obs(e: BaseException) -> Tuple[Any, ...]:
+        seen.append(e)
+        return err_kind(e)
+
+    with procconf.applied(conf or []):
+        r = apply_op(be, op, exc_obs=obs)
+    nsleeps = (len(sleeps) - n0) if sleeps is not None else 0
+    same = bool(seen) and isinstance(seen[0], ClientError) and seen[0].response.get("Error", {}).get("Code") == code
+    if r == ("err", "ClientErr") and same and len(s3.log) == 1 and nsleeps == 0:
+        return None
+    return {"result": r if not seen else (r, repr(seen[0])[:120]), "requests": len(s3.log), "sleeps": nsleeps}
+
+
 def fault_what_coq(what: str) -> str:
-    return {"ConnectionResetError": "POS", "EndpointConnectionError": "PBoto"}.get(what) or f"(PClient {cstr(what)})"
+    return {"ConnectionResetError": "POS", "TimeoutError": "POS", "EndpointConnectionError": "PBoto", "ConnectionClosedError": "PBoto"}.get(what) \
+        or f"(PClient {cstr(what)})"
 
 
 def plan_coq(plan: List[Any]) -> str:
@@ -1637,12 +1779,13 @@ def corr_s3_faults(ctx) -> None:
     for (pfx, F, ops, plans), g in zip(cases, got):
         rs_m, bucket_m, dom, ok, win, spec_m = g
         model = [model_fres(r) for r in rs_m]
-        impl, dump = run_s3_with_plans(ops, plans, pfx, F)
+        conf = conf_of(len(bad) + inside + within + sum(len(o) for o in ops))      # the model has no configuration: any of them must agree with it
+        impl, dump = run_s3_with_plans(ops, plans, pfx, F, conf)
         ctx.count(1, ("corr-faults", pfx, repr(ops), repr(plans)))
         i = first_diff(impl, model)
         mb = {k: v.encode("latin-1") for k, v in bucket_m}
         if i is not None or mb != dump:
-            bad.append({"prefix": pfx, "ops": ops_json(ops), "plans": plans, "index": i, "impl": obs_json(impl[i]) if i is not None else "final bucket differs",
+            bad.append({"prefix": pfx, "ops": ops_json(ops), "plans": plans, "config": conf, "index": i, "impl": obs_json(impl[i]) if i is not None else "final bucket differs",
                         "model": obs_json(model[i]) if i is not None and i < len(model) else None})
         within += 1 if (dom and win) else 0
         if dom and ok:
@@ -1689,19 +1832,27 @@ def mk_fault(spec: List[Any]) -> Tuple[str, Any]:
     if what == "EndpointConnectionError":
         from botocore.exceptions import EndpointConnectionError
         return when, (lambda: EndpointConnectionError(endpoint_url="http://s3"))
+    if what == "ConnectionClosedError":
+        from botocore.exceptions import ConnectionClosedError
+        return when, (lambda: ConnectionClosedError(endpoint_url="http://s3"))
+    if what == "TimeoutError":
+        return when, (lambda: TimeoutError("timed out"))
     return when, what
 
 
-def list_fault_case(nkeys: int, pfx: str, fault_pages: List[int], faults: List[List[Any]], max_retries: int = 5) -> Optional[Dict[str, Any]]:
-    """Implementation-only judgement of one listing under faults. faults[a] = [when, code-or-exception-name, permanent?]"""
+def list_fault_case(nkeys: int, pfx: str, fault_pages: List[int], faults: List[List[Any]], max_retries: int = 5,
+                    conf: Optional[List[List[Any]]] = None) -> Optional[Dict[str, Any]]:
+    """Implementation-only judgement of one listing under faults. faults[a] = [when, code-or-exception-name, permanent?];
+    conf = the process-wide configuration the listing runs under"""
     s3, be, names = list_rig(nkeys, pfx)
     npages = max(1, -(-nkeys // LIST_PAGE))
     assert all(0 <= pg < npages for pg in fault_pages)
     s3.plan = plan_for(fault_pages, [mk_fault(f[:2]) for f in faults])
-    try:
-        got: Any = ("list", list(be.list_files("data")))
-    except Exception as e:  # noqa: BLE001
-        got = ("raise", type(e).__name__, getattr(e, "response", {}).get("Error", {}).get("Code") if hasattr(e, "response") else None)
+    with procconf.applied(conf or []):
+        try:
+            got: Any = ("list", list(be.list_files("data")))
+        except Exception as e:  # noqa: BLE001
+            got = ("raise", type(e).__name__, (getattr(e, "response", None) or {}).get("Error", {}).get("Code"))
     nreq = len(s3.log)
     s3.clear_faults()
     # what the property demands
@@ -1712,7 +1863,7 @@ def list_fault_case(nkeys: int, pfx: str, fault_pages: List[int], faults: List[L
     elif len(faults) > max_retries:
         exp_req = sum(pg + 1 for pg in fault_pages[:max_retries + 1])
         f = faults[max_retries]
-        is_exc = f[1] in ("ConnectionResetError", "EndpointConnectionError")
+        is_exc = f[1] in EXC_FAULTS
         exp = ("raise", f[1] if is_exc else "ClientError", None if is_exc else f[1])
     else:
         exp_req = sum(pg + 1 for pg in fault_pages) + npages
@@ -1720,7 +1871,7 @@ def list_fault_case(nkeys: int, pfx: str, fault_pages: List[int], faults: List[L
     ok = (got[0] == exp[0]) and (sorted(got[1]) == exp[1] if got[0] == "list" else (got[1], got[2]) == (exp[1], exp[2])) and nreq == exp_req
     if ok:
         return None
-    return {"kind": "list-faults", "nkeys": nkeys, "prefix": pfx, "page_size": LIST_PAGE, "fault_pages": fault_pages, "faults": faults,
+    return {"kind": "list-faults", "nkeys": nkeys, "prefix": pfx, "page_size": LIST_PAGE, "fault_pages": fault_pages, "faults": faults, "config": conf or [],
             "got": got if got[0] != "list" else ["list", sorted(got[1])], "expected": list(exp), "requests": nreq, "expected_requests": exp_req}
 
 
@@ -1740,7 +1891,7 @@ def shrink_list_case(c: Dict[str, Any]) -> Dict[str, Any]:
             if pg[i] > 0:
                 cands.append((n, pg[:i] + [pg[i] - 1] + pg[i + 1:], fs))
         for cn, cpg, cfs in cands:
-            r = list_fault_case(cn, best["prefix"], cpg, cfs)
+            r = list_fault_case(cn, best["prefix"], cpg, cfs, conf=best.get("config"))
             if r and r["got"][0] == best["got"][0]:
                 best, changed = r, True
                 break
@@ -1749,7 +1900,8 @@ def shrink_list_case(c: Dict[str, Any]) -> Dict[str, Any]:
 
 def gen_list_fault_cases(ctx) -> List[Tuple[int, str, List[int], List[List[Any]]]]:
     rng = ctx.rng
-    transient = [["before", "SlowDown"], ["after", "SlowDown"], ["before", "ConnectionResetError"], ["after", "InternalError"], ["before", "EndpointConnectionError"]]
+    transient = [["before", "SlowDown"], ["after", "SlowDown"], ["before", "ConnectionResetError"], ["after", "InternalError"], ["before", "EndpointConnectionError"],
+                 ["after", "ConnectionClosedError"], ["before", "TimeoutError"]]
     cases: List[Tuple[int, str, List[int], List[List[Any]]]] = []
     for nkeys in range(3, 8):
         npages = -(-nkeys // LIST_PAGE)
@@ -1809,9 +1961,17 @@ def oracle_list_faults(ctx) -> None:
     cases = gen_list_fault_cases(ctx)
     seen = set()
     nbad = 0
-    for nkeys, pfx, pages_, faults in cases:
-        ctx.count(1, ("list-faults", nkeys, repr(pages_), repr(faults)))
-        bad = list_fault_case(nkeys, pfx, pages_, faults)
+    # every listing case under the library's default configuration or the process at DEBUG (alternating; the single-fault
+    # cases under both), other named configurations in rotation
+    confd: List[Tuple[Any, List[List[Any]]]] = []
+    for i, c in enumerate(cases):
+        if len(c[2]) == 1:
+            confd += [(c, conf) for _n, conf in CONF_BOTH]
+        else:
+            confd.append((c, conf_of(i)))
+    for (nkeys, pfx, pages_, faults), conf in confd:
+        ctx.count(1, ("list-faults", nkeys, repr(pages_), repr(faults), repr(conf)))
+        bad = list_fault_case(nkeys, pfx, pages_, faults, conf=conf)
         if not bad:
             continue
         nbad += 1
@@ -1826,10 +1986,10 @@ def oracle_list_faults(ctx) -> None:
             continue
         seen.add(key)
         small = shrink_list_case(bad)
-        ctx.violation(key, f"list_files('data') over {small['nkeys']} keys (page size {LIST_PAGE}) with faults {small['faults']} on pages {small['fault_pages']} of "
+        ctx.violation(key, f"list_files('data') over {small['nkeys']} keys (page size {LIST_PAGE}), process configuration {small.get('config')}, with faults {small['faults']} on pages {small['fault_pages']} of "
                            f"successive attempts: got {small['got']} after {small['requests']} request(s), expected {small['expected']} after {small['expected_requests']}",
                       small)
-    ctx.stats["list_fault_cases"] = len(cases)
+    ctx.stats["list_fault_cases"] = len(confd)
     ctx.stats["list_fault_cases_violating"] = nbad
 
 
@@ -1939,20 +2099,33 @@ def replay(ctx, payload) -> int:
         print("replay:", "STILL FAILS " + repr(bad) if bad else "passes now")
         return 1 if bad else 0
     if kind == "list-faults":
-        bad = list_fault_case(case["nkeys"], case["prefix"], case["fault_pages"], case["faults"])
+        bad = list_fault_case(case["nkeys"], case["prefix"], case["fault_pages"], case["faults"], conf=case.get("config"))
         print("replay:", "STILL FAILS " + repr(bad) if bad else "passes now")
         return 1 if bad else 0
     if kind == "faults":
         ops = ops_unjson(case["ops"])
         F = [(k, v.encode("latin-1")) for k, v in case.get("foreign", [])]
-        bad = faults_case_fails(ops, case["plans"], case["prefix"], F)
+        bad = faults_case_fails(ops, case["plans"], case["prefix"], F, case.get("config"))
         print("replay:", "STILL FAILS " + repr(bad) if bad else "passes now")
+        return 1 if bad else 0
+    if kind == "permanent":
+        bad = permanent_case_fails(case["code"], ops_unjson([case["op"]])[0], case.get("config"))
+        print("replay:", "STILL FAILS " + repr(bad) if bad else "passes now")
+        return 1 if bad else 0
+    if kind == "code":
+        import datashard.s3_consistency as sc
+        from botocore.exceptions import ClientError
+        from harness.lib.fakes3 import PERMANENT_CODES
+        perm = sc.is_permanent_s3_error(ClientError({"Error": {"Code": case["code"], "Message": "m"}}, "GetObject"))
+        bad = perm != (case["code"] in PERMANENT_CODES + DEFINITIVE_CLIENT_CODES)
+        print("replay:", f"STILL FAILS: {case['code']} classified permanent={perm}" if bad else "passes now")
         return 1 if bad else 0
     if kind == "retry":
         kinds = case["script"]
         ci = case.get("index", 0)
         script = [("G", 100 + i) if c == "G" else make_exc(c, ci + i) for i, c in enumerate(kinds)]
-        res, attempts, sleeps = run_retry(script, vs)
+        with procconf.applied(case.get("config") or []):
+            res, attempts, sleeps = run_retry(script, vs)
         why = retry_contract(kinds, script, res, attempts, sleeps)
         print("replay:", "STILL FAILS " + why if why else "passes now")
         return 1 if why else 0
